@@ -328,9 +328,10 @@ def native_venn(rng, nsorters, chunk, last_on_boundary, silent=False):
 
 def native_rank(rng):
     bad = []
-    for ncols, nrows in ((1, 8), (2, 10), (4, 12), (1, 5), (2, 9), (3, 13), (5, 7)):
-        x = np.repeat(np.arange(ncols), nrows) * 16.0
-        y = np.tile(np.arange(nrows), ncols) * 20.0
+    for ncols, nrows, unit in ((1, 8, 1.0), (2, 10, 1.0), (4, 12, 1.0), (1, 5, 1.0), (2, 9, 1.0), (3, 13, 1.0), (5, 7, 1.0), (2, 10, 1e-3), (4, 12, 1e-3), (3, 13, 1e-6)):
+        # coordinates in micrometres, millimetres (0.016 / 0.020: pitches without an exact binary representation) or metres
+        x = np.repeat(np.arange(ncols), nrows) * 16.0 * unit
+        y = np.tile(np.arange(nrows), ncols) * 20.0 * unit
         nc = x.size
         ns = 200
         t = np.arange(ns) / 30000
@@ -344,7 +345,7 @@ def native_rank(rng):
         # a single plane wave: every frequency bin is S(f) * exp(-2 pi i f tau_c) with a delay tau_c linear in the coordinates (rank one)
         freqs = np.fft.rfftfreq(ns, 1 / 30000)
         S0 = np.fft.rfft(np.exp(-0.5 * ((t - t[ns // 2]) / 0.0004) ** 2))
-        tau = y * 2e-6 + x * 1e-6
+        tau = (y * 2e-6 + x * 1e-6) / unit
         P = S0[None, :] * np.exp(-2j * np.pi * freqs[None, :] * tau[:, None])
         plane = np.fft.irfft(P, ns)
         for niter in (1, 2, 3):
@@ -406,6 +407,15 @@ def native_savgol(rng):
                 ys = SM.non_uniform_savgol(x, y, window, order)
                 if not np.allclose(ys, y, atol=1e-6 * max(1.0, np.abs(y).max())):
                     bad.append(("savgol does not reproduce a polynomial on a lattice with gaps", n, window, order, deg, float(np.abs(ys - y).max())))
+    # ordinates that are whole numbers handed over as integers (counts, frame numbers): a line y = 3 x + 7 sampled off-grid still comes back as that line (not truncated)
+    for case in range(4):
+        x = np.sort(rng.uniform(0, 50, 40)) + np.arange(40) * 0.5
+        yi = np.round(3 * np.arange(40) + 7).astype(np.int64)
+        xg = np.arange(40) + rng.uniform(-0.2, 0.2, 40)
+        ys_i = SM.non_uniform_savgol(xg, yi, 7, 2)
+        ys_f = SM.non_uniform_savgol(xg, yi.astype(float), 7, 2)
+        if np.asarray(ys_i).shape != ys_f.shape or not np.allclose(np.asarray(ys_i, dtype=float), ys_f, atol=1e-9):
+            bad.append(("savgol of integer-typed ordinates differs from the same numbers as floats", case, float(np.max(np.abs(np.asarray(ys_i, dtype=float) - ys_f)))))
     # through the NaN-filling wrapper: a cubic sampled on the integers with NaN gaps comes back as the cubic everywhere
     tt = np.arange(120, dtype=float)
     cub = 1e-4 * (tt - 60) ** 3 - 0.02 * (tt - 60) ** 2 + 0.3 * tt + 2
